@@ -46,9 +46,9 @@ def upfrontCost (c : MethodCost) (stationary : Bool) (crews : Nat) : Int :=
   c.upfront * (crewCount stationary crews : Nat)
 
 /-- the method description `deploy_crews` works with -/
-def methodP (c : MethodCost) (stationary considerWeather : Bool) (env : Envelope) (scale : Nat) : MethodP :=
+def methodP (c : MethodCost) (stationary considerWeather : Bool) (env : Envelope) : MethodP :=
   { stationary := stationary, perSite := decide ((selectCost c).1 = .perSite), unitCost := (selectCost c).2,
-    considerWeather := considerWeather, env := env, scale := scale }
+    considerWeather := considerWeather, env := env }
 
 /-- the cost fields of `TsMethodData` -/
 structure MethodDay where
@@ -57,9 +57,9 @@ structure MethodDay where
   deriving DecidableEq, Repr, Inhabited
 
 /-- one method on one day: `deploy_crews` + `get_upfront_cost` -/
-def methodDay (c : MethodCost) (stationary considerWeather : Bool) (env : Envelope) (scale : Nat)
+def methodDay (c : MethodCost) (stationary considerWeather : Bool) (env : Envelope)
     (budget : Int) (crews : Nat) (reqs : List Req) : MethodDay :=
-  { deploy := (deployDay (methodP c stationary considerWeather env scale) budget
+  { deploy := (deployDay (methodP c stationary considerWeather env) budget
                 (crewCount stationary crews) reqs).stats.cost,
     upfront := upfrontCost c stationary crews }
 
@@ -118,6 +118,23 @@ def bookDay (p : Emission.Params) (cost : Int) (ev : Nat → List Emission.TagEv
 def sumTo (f : Nat → Int) : Nat → Int
   | 0 => 0
   | n + 1 => sumTo f n + f n
+
+/-! ### the program's day: methods + all leaks -/
+
+/-- a repairable leak of the program's world: parameters, its repair cost, the tags it receives -/
+structure Leak where
+  p : Emission.Params
+  cost : Int
+  ev : Nat → List Emission.TagEv
+
+/-- `EmisInfo.repair_cost` / `nat_repair_cost` of day `n`: every emission's `update` adds to the same
+day record (`Infrastructure.update_emissions_state`) -/
+def repSum (es : List Leak) (n : Nat) : Int := (es.map (fun e => (bookDay e.p e.cost e.ev n).1)).sum
+def natSum (es : List Leak) (n : Nat) : Int := (es.map (fun e => (bookDay e.p e.cost e.ev n).2)).sum
+
+/-- the timeseries row of simulated day `n` of a program with method data `ms n` and leaks `es` -/
+def programDay (ms : Nat → List MethodDay) (es : List Leak) (n : Nat) : Row :=
+  dailyRow (n == 0) (ms n) (repSum es n) (natSum es n)
 
 /-! ### one survey over several days: what a per-site method charges for it -/
 
